@@ -392,9 +392,10 @@ func runC06(c *Ctx) {
 }
 
 // ruleReleaseTable: P5 on unregisterNode over refcount x force, and releaseNodes.
-func (c *Ctx) ruleReleaseTable() {
+func (c *Ctx) ruleReleaseTable() { c.ruleReleaseTableAs("C06.release") }
+
+func (c *Ctx) ruleReleaseTableAs(rule string) {
 	p, r := c.P, c.R
-	const rule = "C06.release"
 	fn := c.Fn(rule, PkgRoot, "Broker", "unregisterNode")
 	if fn == nil {
 		return
@@ -976,7 +977,7 @@ func (c *Ctx) rulePolicySource(rule string) {
 				}
 				// the range is over the graph of def.EventType
 				recv := tb.Of(rc[0].Common().Args[0])
-				if b, ok := recv.IsFieldAddr("roots"); !ok || !(strings.Contains(b.String(), "Lookup(Field[graphs](Param(0:b)),Field[EventType](Param(1:def)))") || b.Op == "Phi" || b.Op == "Alloc") {
+				if b, ok := recv.IsFieldAddr("roots"); !ok || !(strings.Contains(b.String(), "Lookup(Field[graphs](Param(0:b)),Field[EventType](Param(1:def)))") || b.Op == "Phi" || b.Op == "Alloc" || graphOfTypeCall(tb, b)) {
 					okCb = false
 				}
 			}
@@ -1090,4 +1091,62 @@ func (c *Ctx) ruleRegisterNode(rule string) {
 		}
 	}
 
+}
+
+// graphGetOrCreate: fn(b *Broker, t EventType) *graph hands back the graph stored in b.graphs under t,
+// or a fresh one — nothing else (a look-up-or-create helper).
+func graphGetOrCreate(fn *ssa.Function) bool {
+	if fn == nil || fn.Blocks == nil || len(fn.Params) != 2 || typeShort(fn.Params[0].Type()) != "eventlogger.Broker" {
+		return false
+	}
+	var srcOK func(v ssa.Value, d int) bool
+	srcOK = func(v ssa.Value, d int) bool {
+		if d > 4 {
+			return false
+		}
+		switch x := v.(type) {
+		case *ssa.Alloc:
+			return typeShort(x.Type()) == "eventlogger.graph"
+		case *ssa.Phi:
+			for _, e := range x.Edges {
+				if !srcOK(e, d+1) {
+					return false
+				}
+			}
+			return true
+		case *ssa.Extract:
+			lk, ok := x.Tuple.(*ssa.Lookup)
+			if !ok || x.Index != 0 || lk.Index != ssa.Value(fn.Params[1]) {
+				return false
+			}
+			ld, ok := lk.X.(*ssa.UnOp)
+			if !ok {
+				return false
+			}
+			fa, ok := ld.X.(*ssa.FieldAddr)
+			return ok && fa.X == ssa.Value(fn.Params[0]) && fieldName(fa) == "graphs"
+		}
+		return false
+	}
+	n := 0
+	for _, ret := range Returns(fn) {
+		rv := RetVals(ret)
+		if len(rv) != 1 || !srcOK(rv[0], 0) {
+			return false
+		}
+		n++
+	}
+	return n > 0
+}
+
+// graphOfTypeCall: t is Call[get-or-create helper](b, def.EventType).
+func graphOfTypeCall(tb *Terms, t *Term) bool {
+	if t == nil || t.Op != "Call" || len(t.Args) != 2 {
+		return false
+	}
+	call, ok := t.V.(*ssa.Call)
+	if !ok || !graphGetOrCreate(call.Call.StaticCallee()) {
+		return false
+	}
+	return t.Args[0].IsParam("0:b") && t.Args[1].String() == "Field[EventType](Param(1:def))"
 }
